@@ -15,6 +15,7 @@
 import DfolsVerif.Proofs.ModelObj
 import DfolsVerif.Proofs.RunningMean
 import DfolsVerif.Gen.ModelDecisions
+import DfolsVerif.Proofs.HCalls
 
 namespace Dfols
 namespace C17
@@ -153,6 +154,19 @@ def argminOld (vs : List Val) : Nat :=
 
 theorem C17_old_argmin_nan : argminOld [.num 3, .nan, .num 1] = 1 ∧ argminNanLast [.num 3, .nan, .num 1] = 2 := by
   decide
+
+/-- **layer G** (decided over the generated table of every call of the regulariser): the five places in model.py that store an
+    objective evaluate `h` at the point they store, in the user's coordinates and with the user's extra arguments — the source-level
+    side of `C17_obj_matches` -/
+theorem C17_src_h_at_stored_point :
+    (Gen.hCalls.filter (fun c => c.func.startsWith "model.py:")).map (fun c => (c.func, c.point)) =
+      [("model.py:__init__", "x0"), ("model.py:change_point", "self.xbase + x"),
+       ("model.py:add_new_sample", "self.xbase + self.points[k, :]"), ("model.py:add_new_point", "self.xbase + x"),
+       ("model.py:save_point", "xabs")] ∧
+    (∀ c ∈ Gen.hCalls, c.npos = 1 ∧ c.nkw = 0 ∧ (c.star = "self.argsh" ∨ c.star = "argsh") ∧
+      ((c.point ≠ "" ∧ (c.scaling = "self.scaling_changes" ∨ c.scaling = "scaling_changes")) ∨
+       (c.func = "util.py:eval_least_squares_with_regularisation" ∧ c.arg = "x"))) :=
+  ⟨HCalls.model_h_at_stored_point, HCalls.h_sees_user_coordinates⟩
 
 end C17
 end Dfols
